@@ -284,31 +284,74 @@ fn case_mixed_family(cx: &mut Cx, cs: u64) {
     cx.rep.distinct(&format!("mixed|{}|{}|{}", sock_v6, buffered, cap));
 }
 
-/// Destination port 0: nothing listens there and the kernel refuses the datagram (EINVAL) - that is the socket's answer,
-/// and it is the caller's: exactly one sendto per emit, addressed to the address given, error passed on and counted.
+/// Destinations of unusual kinds: port 0, an IPv6 address with a zone (link-local `fe80::1%1`) or a flow label, the
+/// unspecified address (on Linux: "the address this socket is bound to") from a socket bound to 127.0.0.2, broadcast
+/// addresses (refused with EACCES unless the socket allows broadcasts), an IPv4-mapped IPv6 address. Whatever the kernel
+/// makes of them is the socket's answer and the caller's: exactly one sendto per emit, addressed - byte for byte of the
+/// socket address, as std itself encodes it for a plain `send_to` - to the address given, result passed on and counted.
 fn case_port_zero(cx: &mut Cx, cs: u64) {
     let mut r = Rng::new(cs ^ 0x9021);
-    let lo = loopback(&mut r);
-    let dest: SocketAddr = if lo.starts_with('[') { "[::1]:0".parse().unwrap() } else { "127.0.0.1:0".parse().unwrap() };
-    let sock = UdpSocket::bind(lo).unwrap();
+    let v6 = UdpSocket::bind("[::1]:0").is_ok();
+    let live = UdpSocket::bind("127.0.0.2:0").ok();
+    let live_port = live.as_ref().and_then(|s| s.local_addr().ok()).map(|a| a.port()).unwrap_or(9);
+    let mut kinds: Vec<(&str, String, &str)> = vec![
+        ("port 0", "127.0.0.1:0".into(), "127.0.0.1:0"),
+        ("unspecified address from a socket bound to 127.0.0.2", format!("0.0.0.0:{}", live_port), "127.0.0.2:0"),
+        ("loopback broadcast", "127.255.255.255:9".into(), "127.0.0.1:0"),
+        ("limited broadcast", "255.255.255.255:9".into(), "0.0.0.0:0"),
+    ];
+    if v6 {
+        kinds.push(("port 0 (IPv6)", "[::1]:0".into(), "[::1]:0"));
+        kinds.push(("link-local address with a zone", "[fe80::1%1]:8125".into(), "[::]:0"));
+        kinds.push(("IPv4-mapped IPv6 address", "[::ffff:127.0.0.1]:9".into(), "[::]:0"));
+        kinds.push(("unspecified IPv6 address", "[::]:9".into(), "[::1]:0"));
+    }
+    let (kind, dest_s, bind_s) = kinds[r.usize_below(kinds.len())].clone();
+    let mut dest: SocketAddr = match dest_s.parse() {
+        Ok(d) => d,
+        Err(_) => return,
+    };
+    if let (SocketAddr::V6(d6), true) = (&mut dest, r.chance(1, 3)) {
+        d6.set_flowinfo(0x000A_BCDE);
+    }
+    // how std encodes this destination for the kernel: a plain send_to through the same interposer
+    let reference: Vec<u8> = {
+        let probe = match UdpSocket::bind(bind_s) {
+            Ok(p) => p,
+            Err(_) => return,
+        };
+        let pfd = probe.as_raw_fd();
+        let m = interpose::mark();
+        let _ = probe.send_to(b"", dest);
+        match interpose::since(m).into_iter().find(|x| x.fd == pfd) {
+            Some(x) => x.dest,
+            None => return,
+        }
+    };
+    let sock = match UdpSocket::bind(bind_s) {
+        Ok(s) => s,
+        Err(_) => return,
+    };
     let fd = sock.as_raw_fd();
     let buffered = r.chance(1, 2);
     let sink: Box<dyn MetricSink> = if buffered { Box::new(BufferedUdpMetricSink::with_capacity(dest, sock, 32).expect("with_capacity")) } else { Box::new(UdpMetricSink::from(dest, sock).expect("from")) };
-    let label = if buffered { "BufferedUdpMetricSink(port 0)" } else { "UdpMetricSink(port 0)" };
+    let label = format!("{}({})", if buffered { "BufferedUdpMetricSink" } else { "UdpMetricSink" }, kind);
     cx.rep.eval();
-    cx.rep.obs("udp_sinks_addressed_to_port_0", 1);
+    cx.rep.obs("udp_sinks_addressed_to_port_0", if kind.starts_with("port 0") { 1 } else { 0 });
+    cx.rep.obs("udp_sinks_addressed_to_an_unusual_kind_of_destination", 1);
     let mark = interpose::mark();
     let mut results = Vec::new();
     for k in 0..r.range(2, 8) {
-        let m = format!("zero.n{}:{}|c", k, r.below(1000));
+        let m = format!("odd.n{}:{}|c", k, r.below(1000));
         results.push((m.clone(), panics::guard(|| sink.emit(&m))));
     }
     let _ = panics::guard(|| sink.flush());
+    let stats = sink.stats();
     let recs: Vec<interpose::Rec> = interpose::since(mark).into_iter().filter(|x| x.fd == fd).collect();
-    let trace = jobj! {"sink" => label, "destination" => dest.to_string(),
-        "sendto_calls" => Json::Arr(recs.iter().map(|x| jobj!{"len" => x.payload.len(), "result" => x.result as i64, "errno" => x.errno, "dest" => format!("{:?}", decode_dest_inet(&x.dest))}).collect())};
-    if let Some(x) = recs.iter().find(|x| decode_dest_inet(&x.dest) != Some(dest)) {
-        cx.violation("C13", "destination", "wrong-destination", format!("{}: the sink was built for {}, a datagram was addressed to {:?}", label, dest, decode_dest_inet(&x.dest)), trace, cs);
+    let trace = jobj! {"sink" => label.as_str(), "destination" => dest.to_string(), "socket_bound_to" => bind_s,
+        "sendto_calls" => Json::Arr(recs.iter().map(|x| jobj!{"len" => x.payload.len(), "result" => x.result as i64, "errno" => x.errno, "dest" => format!("{:?}", decode_dest_inet(&x.dest)), "sockaddr" => format!("{:02x?}", x.dest)}).collect())};
+    if let Some(x) = recs.iter().find(|x| x.dest != reference) {
+        cx.violation("C13", "destination", "wrong-destination", format!("{}: the sink was built for {} (socket address {:02x?}), a datagram was addressed to {:?} (socket address {:02x?})", label, dest, reference, decode_dest_inet(&x.dest), x.dest), trace, cs);
         return;
     }
     if recs.is_empty() {
@@ -316,6 +359,10 @@ fn case_port_zero(cx: &mut Cx, cs: u64) {
         return;
     }
     if !buffered {
+        if recs.len() != results.len() {
+            cx.violation("C13", "one-datagram-per-emit", "sendto-count", format!("{}: {} sendto calls for {} emits", label, recs.len(), results.len()), trace, cs);
+            return;
+        }
         for ((m, res), rec) in results.iter().zip(recs.iter()) {
             let ok = match (res, rec.result) {
                 (Ok(Ok(nb)), sent) if sent >= 0 => *nb as isize == sent,
@@ -328,8 +375,16 @@ fn case_port_zero(cx: &mut Cx, cs: u64) {
             }
         }
     }
-    cx.rep.obs("kernel_socket_errors_checked", recs.iter().filter(|x| x.result < 0).count() as u64);
-    cx.rep.distinct(&format!("port0|{}|{}", lo, buffered));
+    // C14: every attempt is accounted for by its own result
+    let (ok_n, ok_b) = recs.iter().filter(|x| x.result >= 0).fold((0u64, 0u64), |a, x| (a.0 + 1, a.1 + x.result as u64));
+    let (bad_n, bad_b) = recs.iter().filter(|x| x.result < 0).fold((0u64, 0u64), |a, x| (a.0 + 1, a.1 + x.payload.len() as u64));
+    if (stats.packets_sent, stats.bytes_sent, stats.packets_dropped, stats.bytes_dropped) != (ok_n, ok_b, bad_n, bad_b) {
+        cx.violation("C14", "packets-add-up", "sent-dropped-split", format!("{}: stats() = {:?} but the socket accepted {} datagrams / {} bytes and refused {} / {}", label, stats, ok_n, ok_b, bad_n, bad_b), trace, cs);
+        return;
+    }
+    cx.rep.obs("kernel_socket_errors_checked", bad_n);
+    cx.rep.distinct(&format!("odd-dest|{}|{}", kind, buffered));
+    drop(live);
 }
 
 fn case_unbuffered(cx: &mut Cx, cs: u64) {
@@ -1309,7 +1364,7 @@ fn main() {
                         if cs % 8 == 0 {
                             case_mixed_family(&mut cx, cs);
                         }
-                        if cs % 16 == 1 {
+                        if cs % 8 == 1 {
                             case_port_zero(&mut cx, cs);
                         }
                     }
